@@ -55,7 +55,9 @@ Definition mon_c06 (c : smcase) (t : list action) : bool :=
 Definition run_c06 := run_sm proj_c06 mon_c06.
 Definition mon_c07 (c : smcase) (t : list action) : bool := match c with KSm _ _ _ cup _ e _ _ => accepts step7 (init7 cup (e_store e)) t end.
 Definition run_c07 := run_sm proj_c07 mon_c07.
-Definition run_c08 := run_sm proj_c08 mon_true.
+Definition mon_c08 (c : smcase) (t : list action) : bool :=
+  match c with KSm _ cfg url cup apps e _ _ => accepts step8 (init8 cfg url cup apps (e_store e)) t end.
+Definition run_c08 := run_sm proj_c08 mon_c08.
 Definition mon_c09 (c : smcase) (t : list action) : bool :=
   match c with KSm _ _ _ cup apps e _ _ => accepts step9 (init9 cup apps (e_store e)) t end.
 Definition run_c09 := run_sm proj_c09 mon_c09.
